@@ -20,6 +20,17 @@ class StrE(SymVal):
         if op == 'Add' and isinstance(other, StrE):
             return StrE(other.pieces + self.pieces) if reflected else StrE(self.pieces + other.pieces)
         return NotImplemented
+    def sym_getattr(self, it, name):
+        if name == 'join':
+            def join(it, xs):
+                out = []
+                for i, x in enumerate(it.iterate(xs)):
+                    if i: out += self.pieces
+                    out += flat(x)
+                return StrE(out)
+            return Contract(join, 'str.join')
+        raise Outside(f'str.{name}')
+    def sym_truth(self, it): return bool(self.pieces)
 def flat(x):
     if isinstance(x, StrE): return list(x.pieces)
     if x == '': return []
@@ -37,6 +48,7 @@ class StringsM(SymVal):
             if k in self.known: return StrE([('sym', k.name)])
             raise PyExc(KeyError, (k,))
         if isinstance(k, tuple) and len(k) == 2 and isinstance(k[0], type): return StrE([('sym', k[0].__name__, k[1])])
+        if isinstance(k, tuple) and len(k) == 2 and not isinstance(k[0], type): return StrE([('sym-pair', getattr(k[0], 'name', k[0]), getattr(k[1], 'name', k[1]))])
         from pytableaux.lang import Marking
         if isinstance(k, Marking): return StrE([('mark', k.name)])
         raise Outside(f'strings[{k!r}]')
@@ -55,6 +67,15 @@ class WriterM(SymVal):
                 fi = source.of_function(c.__dict__[name]); self.inlined[fi.key] = fi
                 return BoundSource(fi, c.__dict__[name], c, self)
         raise Outside(f'LexWriter.{name}')
+    def sym_super_getattr(self, it, defcls, name):
+        import types
+        from pyvc.interp import BoundSource
+        mro = self.cls.__mro__
+        for c in mro[mro.index(defcls) + 1:]:
+            if name in c.__dict__ and isinstance(c.__dict__[name], types.FunctionType):
+                fi = source.of_function(c.__dict__[name]); self.inlined[fi.key] = fi
+                return BoundSource(fi, c.__dict__[name], c, self)
+        raise Outside(f'super().{name}')
 
 def writer_world():
     w = World()
@@ -145,6 +166,98 @@ def writer_obligations(ctx):
         ctx.add(enum_ob('C12.write._write.dispatch', ok1 and ok2, clause='_write(item) = strings[item] when the table has it (enum members), else the method for type(item)', cex=dict(ok1=ok1, ok2=ok2)))
     except Outside as e_:
         ctx.add_result(Result('C12.write._write_coordsitem', 'unknown', detail=f'outside subset: {e_}'))
+
+def standard_writer_obligations(ctx):
+    """StandardLexWriter._write_operated / _write_predicated / __call__ interpreted from source for every option value:
+    binary sentences are  open lhs ws oper ws rhs close  (no parentheses exactly when drop_parens is asked for, which __call__ does
+    only for the outermost Operated), unary ones  oper operand, negated identities  a ws != ws b  iff identity_infix"""
+    from pytableaux.lang import writing, Operator, Predicate, Operated, Predicated, Atomic, Marking
+    W = writing.StandardLexWriter
+    world = writer_world()
+    class Item(Part):
+        def __init__(s, name, typ, **attrs): super().__init__(name, typ); s.attrs = attrs
+        def sym_getattr(s, it, nm):
+            if nm in s.attrs: return s.attrs[nm]
+            raise Outside(f'item.{nm}')
+        def sym_iter(s, it): return list(s.attrs.get('_iter', []))
+        def sym_getitem(s, it, k):
+            items = list(s.attrs.get('_iter', []))
+            return tuple(items[k]) if isinstance(k, slice) else items[k]
+        def sym_len(s, it): return len(s.attrs.get('_iter', []))
+    class SW(WriterM):
+        def __init__(s, opts): super().__init__(W, StringsM(())); s.o = opts
+        def sym_getattr(s, it, name):
+            if name == 'opts': return s.o
+            return super().sym_getattr(it, name)
+    ws = ('mark', 'whitespace'); po = ('mark', 'paren_open'); pc = ('mark', 'paren_close')
+    bad = []; und = None
+    def run(meth, args, kw, opts):
+        holder = []
+        def runp(path):
+            it = Interp(path, world); wm = SW(opts); holder.append(wm)
+            return it.call(wm.sym_getattr(it, meth), list(args), dict(kw))
+        prs = explore(runp)
+        for wm in holder:
+            for f in wm.inlined.values(): ctx.under_contract(f)
+        return prs
+    a, b = Part('a'), Part('b')
+    lhs, rhs = Part('lhs', Atomic), Part('rhs', Atomic)
+    class PredI(Part):
+        def __init__(s, name, arity, is_identity=False): super().__init__(name); s.arity_ = arity; s.is_identity = is_identity
+        def sym_getattr(s, it, nm):
+            if nm == 'arity': return s.arity_
+            raise Outside(nm)
+        def sym_is(s, it, o): return (s is o) or (s.is_identity and o is Predicate.Identity)
+    IDENT = PredI('Identity', 2, True)
+    try:
+        for oper in (Operator.Conjunction, Operator.Conditional, Operator.Biconditional):
+            item = Item('bin', Operated, operator=oper, lhs=lhs, rhs=rhs, _iter=[lhs, rhs])
+            for dp in (False, True):
+                for opts in (dict(drop_parens=True, identity_infix=True, max_infix=0), dict(drop_parens=False, identity_infix=False, max_infix=0)):
+                    prs = run('_write_operated', [item], dict(drop_parens=dp), opts)
+                    core = [('W', lhs), ws, ('W', oper), ws, ('W', rhs)]
+                    want = core if dp else [po] + core + [pc]
+                    if len(prs) != 1 or prs[0].kind != 'return' or flat(prs[0].value) != want: bad.append(dict(case=f'{oper.name} drop_parens={dp}', got=str(flat(prs[0].value)) if prs and prs[0].kind == 'return' else str(prs[0].value) if prs else None))
+            # default keyword: parentheses are written
+            prs = run('_write_operated', [item], {}, dict(drop_parens=True, identity_infix=True, max_infix=0))
+            if len(prs) != 1 or flat(prs[0].value) != [po, ('W', lhs), ws, ('W', oper), ws, ('W', rhs), pc]: bad.append(dict(case=f'{oper.name} default keyword'))
+        for oper in (Operator.Negation, Operator.Possibility, Operator.Assertion):
+            item = Item('un', Operated, operator=oper, lhs=lhs, _iter=[lhs])
+            prs = run('_write_operated', [item], {}, dict(drop_parens=True, identity_infix=True, max_infix=0))
+            if len(prs) != 1 or prs[0].kind != 'return' or flat(prs[0].value) != [('W', oper), ('W', lhs)]: bad.append(dict(case=f'{oper.name} unary'))
+        ident = Item('id', Predicated, predicate=IDENT, _iter=[a, b])
+        for infix in (True, False):
+            for oper in (Operator.Negation, Operator.Possibility):
+                item = Item('negid', Operated, operator=oper, lhs=ident, _iter=[ident])
+                prs = run('_write_operated', [item], {}, dict(drop_parens=True, identity_infix=infix, max_infix=0))
+                want = [('W', a), ws, ('sym', 'Operator', Predicate.Identity) if False else None, ws, ('W', b)]
+                got = flat(prs[0].value) if len(prs) == 1 and prs[0].kind == 'return' else None
+                if oper is Operator.Negation and infix:
+                    ok = got is not None and len(got) == 5 and got[0] == ('W', a) and got[1] == ws and got[3] == ws and got[4] == ('W', b) and got[2] not in (ws, ('W', oper))
+                else:
+                    ok = got == [('W', oper), ('W', ident)]
+                if not ok: bad.append(dict(case=f'{oper.name} of an identity, identity_infix={infix}', got=str(got)))
+        # _write_predicated
+        P3 = Part('P3'); P3.arity = 3
+        t1, t2, t3 = Part('t1'), Part('t2'), Part('t3')
+        for pred, params, opts, want in (
+            (IDENT, [a, b], dict(drop_parens=True, identity_infix=True, max_infix=0), [('W', a), ws, ('W', IDENT), ws, ('W', b)]),
+            (IDENT, [a, b], dict(drop_parens=True, identity_infix=False, max_infix=0), [('W', IDENT), ('W', a), ('W', b)]),
+            (PredI('G', 2), [t1, t2], dict(drop_parens=True, identity_infix=True, max_infix=0), None),
+            (PredI('G', 2), [t1, t2], dict(drop_parens=True, identity_infix=True, max_infix=3), 'infix2'),
+            (PredI('H', 3), [t1, t2, t3], dict(drop_parens=True, identity_infix=True, max_infix=3), None),
+            (PredI('F', 1), [t1], dict(drop_parens=True, identity_infix=True, max_infix=3), None)):
+            item = Item('pr', Predicated, predicate=pred, _iter=params)
+            prs = run('_write_predicated', [item], {}, opts)
+            got = flat(prs[0].value) if len(prs) == 1 and prs[0].kind == 'return' else None
+            if want is None: want = [('W', pred)] + [('W', t) for t in params]
+            if want == 'infix2': want = [('W', params[0]), ('W', pred), ('W', params[1])]
+            if got != want: bad.append(dict(case=f'predicated {getattr(pred, "name", pred)} {opts}', got=str(got), want=str(want)))
+    except Outside as e:
+        und = f'outside subset: {e}'
+    name = 'C12.write.Standard'
+    if und: return ctx.add_result(Result(name, 'unknown', detail=und))
+    ctx.add(enum_ob(name, not bad, cex=dict(bad=bad[:3]), clause='StandardLexWriter: binary = [open] lhs ws oper ws rhs [close] with parentheses unless drop_parens is passed; unary = oper operand; a negated identity is a ws != ws b iff identity_infix; predications are prefix unless identity (with identity_infix) or arity < max_infix'))
 
 def argstr_obligations(ctx):
     """Argument.argstr / from_argstr interpreted from source: the canonical string lists EVERY member of the argument (conclusion
@@ -350,6 +463,7 @@ def run(ctx):
                        'shown to produce the prefix concatenation of the reference rendering; the live Polish/ascii string and parse tables are mutually inverse single characters disjoint from digits, blank and colon.  '
                        'Bounded: write/parse round trips of random sentences in both notations with blanks and dropped parentheses, argstr round trip, pairwise rendering injectivity in all 12 tables and the StandardLexWriter option variants.')
     writer_obligations(ctx)
+    standard_writer_obligations(ctx)
     argstr_obligations(ctx)
     table_obligations(ctx)
     bounded_roundtrip(ctx)
